@@ -238,7 +238,7 @@ def parseHexInt (s : Str) : Option Nat :=
 
 /-! ### body framing decision -/
 
-/-- `re.split(r",\s*", v)` -/
+/-- `re.split(r",[ \t]*", v)` (since the `fix:` commit: optional whitespace is SP / HTAB only) -/
 def splitCommaWs : Str → List Str
   | [] => [[]]
   | c :: cs =>
@@ -247,11 +247,11 @@ def splitCommaWs : Str → List Str
       | [] => [[c]]
       | w :: ws => (c :: w) :: ws
 where
-  /-- after a comma: skip the `\s*` run, then continue -/
+  /-- after a comma: skip the `[ \t]*` run, then continue -/
   splitCommaWsSkip : Str → List Str
   | [] => [[]]
   | c :: cs =>
-    if isPySpace c then splitCommaWsSkip cs
+    if c = 32 || c = 9 then splitCommaWsSkip cs
     else if c = cComma then [] :: splitCommaWsSkip cs
     else match splitCommaWs cs with
       | [] => [[c]]
